@@ -225,13 +225,13 @@ def possible_accesses(spec, g, r):
             out.append(([g.name], form, e, s))
         for s_ in spec.globals:
             if s_.kind == "sampler":
-                f = sample_form(g, s_)
+                f = sample_form(g, s_, r.randrange(3))
                 if f:
                     out.append(([g.name, s_.name], f[0], f[1], f[2]))
     elif g.kind == "sampler":
         for t in spec.globals:
             if t.kind == "texture":
-                f = sample_form(t, g)
+                f = sample_form(t, g, r.randrange(3))
                 if f:
                     out.append(([t.name, g.name], f[0], f[1], f[2]))
     return out
@@ -336,6 +336,8 @@ def build_graph(r, spec, namer, nfuncs, stages, entries_per_stage=(1, 2), shape=
                 used_return.add(h.name)
             if site in E_SITES and e is None:
                 site = r.choice(S_SITES)
+            if site == "for_update" and s is not None and s.lstrip().startswith("{"):
+                site = "for_body"  # a compound statement is not allowed in the update clause
             h.actions.append(Action("access", site, glob=globs, form=form,
                                     expr=e if site in E_SITES or s is None else None,
                                     stmt=s if site in S_SITES else None))
@@ -1066,6 +1068,7 @@ def fam_const(r, idx):
                             "bits": 0x80000000, "skipped": False})
     # hostile text
     hostile = ['// "quotes" \'single\' \\backslash\\ {braces} }} {{ r#"raw"# \\n \\u{41} \\x41',
+               "// NUL \x00 inside a line comment", "/* NUL \x00 in a block comment */",
                "// tab\there, nul-less control \x01\x02\x7f, BOM-like ﻿ inside, zero width ​",
                "/* block */ // 变量 😀 \U0001F600 é é ‮ rtl",
                "// line ending variants follow",
